@@ -132,13 +132,35 @@ func runC26(c *core.Ctx) {
 			}
 			return (isOld(call.Args[0]) && isNew(call.Args[1])) || (isNew(call.Args[0]) && isOld(call.Args[1]))
 		})
-		okC := len(edges) >= 1
-		for _, e := range edges {
-			if o, _ := edgeLeadsOnlyTo(f, e.B, e.Succ, errRet); !o {
-				okC = false
+		_ = edges
+		// the early "same request, same table" acceptance is itself a rejecting-free exit: treat it as
+		// rejecting for this row (it is checked separately below)
+		sameEarly := func(r *ast.ReturnStmt) bool {
+			if errRet(r) {
+				return true
 			}
+			return enclosingLoop(f, r.Pos()) != nil
 		}
-		c.Check(okC, "overlapping table => refused", "T8 DecisionTable", f.Pos(), "tablesConflicting(old.Table, route.Table) leads only to error returns", "a request whose table overlaps a recorded table can be accepted")
+		isConflict := func(ft core.Fact) bool {
+			if !ft.Truth {
+				return false
+			}
+			call := isCallTo(f, ft.Expr, mdP+"tablesConflicting")
+			if call == nil || len(call.Args) != 2 {
+				return false
+			}
+			isOld := func(e ast.Expr) bool {
+				r, pth := fieldPath(f, e)
+				return len(pth) == 1 && pth[0] == mdP+"TableRecord.Table" && varOf(f, r) == old
+			}
+			isNew := func(e ast.Expr) bool {
+				r, pth := fieldPath(f, e)
+				return len(pth) == 1 && pth[0] == mdP+"Route.Table" && varOf(f, r) == route
+			}
+			return (isOld(call.Args[0]) && isNew(call.Args[1])) || (isNew(call.Args[0]) && isOld(call.Args[1]))
+		}
+		okC, why := rejectedWhen(f, isConflict, sameEarly)
+		c.Check(okC, "overlapping table => refused", "T8 DecisionTable", f.Pos(), "tablesConflicting(old.Table, route.Table) leads only to error returns, and every recorded request passes that test before the scan moves on", "a request whose table overlaps a recorded table can be accepted: "+why)
 		// the only nil return inside the loop requires same req and same table
 		sameReq := func(ft core.Fact) bool {
 			cm, k := core.NormCmp(ft)
@@ -274,7 +296,7 @@ func runC26(c *core.Ctx) {
 		}
 		c.Need(newRoute != nil, "newRoute := RouteOf(old.Req)")
 		for _, w := range want {
-			edges := edgesWithFact(f, func(ft core.Fact) bool {
+			ok, why := rejectedWhen(f, func(ft core.Fact) bool {
 				cm, k := core.NormCmp(ft)
 				if !k || cm.R == nil || cm.Op != token.NEQ {
 					return false
@@ -285,14 +307,8 @@ func runC26(c *core.Ctx) {
 					return len(p1) == 1 && p1[0] == w.oldF && len(p2) == 1 && p2[0] == w.newF && varOf(f, r2) == newRoute
 				}
 				return is(cm.L, cm.R) || is(cm.R, cm.L)
-			})
-			ok := len(edges) >= 1
-			for _, e := range edges {
-				if o, _ := edgeLeadsOnlyTo(f, e.B, e.Succ, errRet); !o {
-					ok = false
-				}
-			}
-			c.Check(ok, "changed "+w.name+" => verification fails", "T8 field coverage", f.Pos(), "a differing "+w.name+" leads only to error returns", "verification does not fail when the "+w.name+" of a recorded request changed")
+			}, errRet)
+			c.Check(ok, "changed "+w.name+" => verification fails", "T8 field coverage", f.Pos(), "a differing "+w.name+" leads only to error returns and every record passes that test", "verification does not fail when the "+w.name+" of a recorded request changed: "+why)
 		}
 		// loops are complete (every record of every database is checked)
 		n := 0
